@@ -91,8 +91,8 @@ Qed.
 Lemma wf_node_weaken b : wf_node true b = true -> wf_node false b = true.
 Proof.
   unfold wf_node, wf_ctx_kind. simpl. intros H.
-  apply andb_true_iff in H. destruct H as [H H3]. apply andb_true_iff in H. destruct H as [H1 H2].
-  rewrite H1, H3. simpl. destruct (in_flow (binfo b)); simpl in *; [reflexivity|]. now rewrite H2.
+  apply andb_true_iff in H. destruct H as [H2 H3].
+  rewrite H3. destruct (in_flow (binfo b)); simpl in *; [reflexivity|]. now rewrite H2.
 Qed.
 
 Lemma wf_from_weaken b : wf_from true b = true -> wf_from false b = true.
